@@ -33,6 +33,7 @@ import (
 var t0 = time.Date(2023, 5, 10, 12, 0, 0, 0, time.UTC)
 
 var realLog *dailylogger.Writer
+var realLogPath string // the one file the writer has open (truncated before each execution that logs)
 
 func TestMain(m *testing.M) {
 	if os.Getenv("MC_PROP") != "C19" {
@@ -53,6 +54,9 @@ func TestMain(m *testing.M) {
 	// logging switched off: its Write is then a no-op inside the dependency
 	realLog = dailylogger.New(dir, "data.", ".rtcm")
 	realLog.DisableLogging()
+	if ents, _ := os.ReadDir(dir); len(ents) == 1 {
+		realLogPath = dir + "/" + ents[0].Name()
+	}
 	defer os.RemoveAll(dir)
 	harness.Cleanup = func() { os.RemoveAll(dir) }
 	idle := string(reportfeed.New(realLog, circularQueue.NewCircularQueue(2)).Status())
@@ -61,9 +65,9 @@ func TestMain(m *testing.M) {
 		templateAnglesBeforeMessages = strings.Count(idle[:i+len("id='messages'>")], "<") + strings.Count(idle[:i+len("id='messages'>")], ">")
 	}
 	harness.Run(&harness.Prop{
-		ID: "C19",
-		Rule: "the shipped handleMessages/handleClientMessages/handleServerMessages/keepCircularQueueUpdated of the proxy (in-package harness, package globals set as start() sets them) over two harness-owned net.Conn values whose Read is a scheduling and chunking choice point and whose Write records; a status thread calls ReportFeed.Status() twice at scheduler-chosen moments. Client streams: frame whose payload reads '<b>', HTML-looking junk before a frame, CRC-valid MSM frames with short or inconsistent content before a frame, two frames, plain junk; server streams: text and binary. plus scenarios in which one peer stops reading (its Write blocks) while the other direction has traffic, and bursts of 2047, 2048, 2049 and 4096 bytes (the relay's read buffer is 2048 bytes) in both directions under the default schedule. All chunkings and interleavings in the unbounded pass where it completes, otherwise deviation bound 2. Oracle: at quiescence upstream sink == client bytes and client sink == server bytes; no panic; every report's message list is (after un-escaping) the display of a prefix of the sequential framing of the client stream; the number of '<' and '>' in every report equals that of the fixed template. Non-trivial = distinct schedule trace",
-		Assumptions: []string{"TCP is replaced by in-memory net.Conn values: Read returns what was sent in explorer-chosen chunks, a server Read with nothing left blocks until the connection is closed, the client reports EOF only after the server's bytes have reached it; the kernel's segmentation and timing are outside the check", "the status HTTP server (go-tools dependency) is not started; ReportFeed.Status is called directly", "the daily RTCM log is a real dailylogger.Writer with logging disabled (file handling belongs to the dependency)", "'HTML-escaped' is judged on '<' and '>' only, which is what Sanitise defines"},
+		ID:             "C19",
+		Rule:           "the shipped handleMessages/handleClientMessages/handleServerMessages/keepCircularQueueUpdated of the proxy (in-package harness, package globals set as start() sets them) over two harness-owned net.Conn values whose Read is a scheduling and chunking choice point and whose Write records; a status thread calls ReportFeed.Status() twice at scheduler-chosen moments. Client streams: frame whose payload reads '<b>', HTML-looking junk before a frame, CRC-valid MSM frames with short or inconsistent content before a frame, two frames, plain junk; server streams: text and binary. plus scenarios in which one peer stops reading (its Write blocks) while the other direction has traffic, and bursts of 2047, 2048, 2049 and 4096 bytes (the relay's read buffer is 2048 bytes) in both directions under the default schedule. All chunkings and interleavings in the unbounded pass where it completes, otherwise deviation bound 2. Oracle: at quiescence upstream sink == client bytes and client sink == server bytes; no panic; every report's message list is (after un-escaping) the display of a prefix of the sequential framing of the client stream; the number of '<' and '>' in every report equals that of the fixed template. Non-trivial = distinct schedule trace",
+		Assumptions:    []string{"TCP is replaced by in-memory net.Conn values: Read returns what was sent in explorer-chosen chunks, a server Read with nothing left blocks until the connection is closed, the client reports EOF only after the server's bytes have reached it; the kernel's segmentation and timing are outside the check", "the status HTTP server (go-tools dependency) is not started; ReportFeed.Status is called directly", "the daily RTCM log is a real dailylogger.Writer over a scratch directory; logging is disabled in most scenarios and enabled, or switched by the status thread through ReportFeed.SetLogLevel while traffic flows, in twelve of them (file handling itself belongs to the dependency)", "'HTML-escaped' is judged on '<' and '>' only, which is what Sanitise defines"},
 		Scenarios:      scenarios,
 		QuickBudget:    60 * time.Second,
 		ThoroughBudget: 10 * time.Minute,
@@ -74,14 +78,14 @@ var errClosed = errors.New("use of closed network connection")
 
 // conn is an in-memory net.Conn end.
 type conn struct {
-	name      string
-	rd        *hsink.ChunkReader
-	out       *hsink.Sink
-	closedCh  chan struct{} // closed by Close
-	closed    bool
-	eofAfter  chan struct{} // when non-nil: EOF is reported only after this is closed
-	blockAtEnd bool         // Read with nothing left blocks until Close
-	onWrite   func()
+	name       string
+	rd         *hsink.ChunkReader
+	out        *hsink.Sink
+	closedCh   chan struct{} // closed by Close
+	closed     bool
+	eofAfter   chan struct{} // when non-nil: EOF is reported only after this is closed
+	blockAtEnd bool          // Read with nothing left blocks until Close
+	onWrite    func()
 	// writeGate, when non-nil, makes Write block until the gate is closed: the
 	// peer has stopped reading and the TCP buffers are full
 	writeGate chan struct{}
@@ -215,13 +219,13 @@ func scenarios(tier string) []*mcrt.Scenario {
 		return 0xFF
 	}
 	client := map[string][]byte{
-		"frame":           f,
-		"htmlframe+D3":    append(append([]byte{}, html...), 0xD3),
-		"htmljunk+frame":  append([]byte("<b>x</b>"), f...),
-		"shortMSM+frame":  append(ref.TypedFrame(1077, 3, nil), f...),
-		"bigmasks+frame":  append(ref.TypedFrame(1077, 30, mask), f...),
-		"frame+frame+D3":  append(append(append([]byte{}, f...), html...), 0xD3),
-		"junk":            []byte("GET /x\r\n"),
+		"frame":          f,
+		"htmlframe+D3":   append(append([]byte{}, html...), 0xD3),
+		"htmljunk+frame": append([]byte("<b>x</b>"), f...),
+		"shortMSM+frame": append(ref.TypedFrame(1077, 3, nil), f...),
+		"bigmasks+frame": append(ref.TypedFrame(1077, 30, mask), f...),
+		"frame+frame+D3": append(append(append([]byte{}, f...), html...), 0xD3),
+		"junk":           []byte("GET /x\r\n"),
 	}
 	server := map[string][]byte{"text": []byte("ICY 200 OK\r\n"), "binary": {0x00, 0xD3, 0xFF, '<'}, "none": {}}
 	order := []string{"frame", "htmlframe+D3", "htmljunk+frame", "shortMSM+frame", "bigmasks+frame", "frame+frame+D3", "junk"}
@@ -237,107 +241,138 @@ func scenarios(tier string) []*mcrt.Scenario {
 					continue
 				}
 				displays, fault := expectedDisplays(cdata)
-				scs = append(scs, &mcrt.Scenario{
-					Name:  fmt.Sprintf("client=%s server=%s status-calls=%d", cn, sn, nstatus),
-					Bound: 2, Horizon: 50000, Prune: true, Full: tier == "thorough",
-					Body: func(x *mcrt.X) {
-						obs := &obsT{toServer: &hsink.Sink{Name: "upstream"}, toClient: &hsink.Sink{Name: "client"}}
-						x.Data = obs
-						// what start() sets up
-						byteChan = make(chan byte)
-						messageChan = make(chan rtcm.Message)
-						rtcmHandler = rtcm.New(t0, slog.LevelInfo)
-						mcrt.Go("HandleMessages", func() { rtcmHandler.HandleMessages(byteChan, messageChan) })
-						recentMessages = circularQueue.NewCircularQueue(maxNumberOfMessagesStored)
-						mcrt.Go("keepCircularQueueUpdated", func() { keepCircularQueueUpdated(messageChan, recentMessages) })
-						rtcmLog = realLog
-						SetReportFeed(reportfeed.New(rtcmLog, recentMessages))
+				// the message log is a run-time switch (-q/-v, and the operator's
+				// /status/loglevel request): off, on, and switched while traffic flows
+				logModes := []string{"off"}
+				if sn == "binary" && nstatus == 1 && (cn == "frame" || cn == "frame+frame+D3" || cn == "junk") {
+					logModes = []string{"off", "on", "switched-off-then-on", "switched-on-then-off"}
+				}
+				for _, logMode := range logModes {
+					logMode := logMode
+					scs = append(scs, &mcrt.Scenario{
+						Name:  fmt.Sprintf("client=%s server=%s status-calls=%d", cn, sn, nstatus) + map[bool]string{false: " log=" + logMode}[logMode == "off"],
+						Bound: 2, Horizon: 50000, Prune: true, Full: tier == "thorough",
+						Body: func(x *mcrt.X) {
+							obs := &obsT{toServer: &hsink.Sink{Name: "upstream"}, toClient: &hsink.Sink{Name: "client"}}
+							x.Data = obs
+							// what start() sets up
+							byteChan = make(chan byte)
+							messageChan = make(chan rtcm.Message)
+							rtcmHandler = rtcm.New(t0, slog.LevelInfo)
+							mcrt.Go("HandleMessages", func() { rtcmHandler.HandleMessages(byteChan, messageChan) })
+							recentMessages = circularQueue.NewCircularQueue(maxNumberOfMessagesStored)
+							mcrt.Go("keepCircularQueueUpdated", func() { keepCircularQueueUpdated(messageChan, recentMessages) })
+							rtcmLog = realLog
+							realLog.DisableLogging()
+							if logMode == "on" || logMode == "switched-off-then-on" {
+								_ = os.Truncate(realLogPath, 0)
+								realLog.EnableLogging()
+							}
+							defer realLog.DisableLogging()
+							SetReportFeed(reportfeed.New(rtcmLog, recentMessages))
 
-						serverDone := make(chan struct{})
-						doneClosed := false
-						cl := &conn{name: "client", rd: &hsink.ChunkReader{Data: cdata, Sizes: []int{0, 1, 3}, Reset: true}, out: obs.toClient, closedCh: make(chan struct{}), eofAfter: serverDone}
-						sv := &conn{name: "server", rd: &hsink.ChunkReader{Data: sdata, Sizes: []int{0, 1, 2}, Reset: true}, out: obs.toServer, closedCh: make(chan struct{}), blockAtEnd: true}
-						cl.onWrite = func() {
-							if !doneClosed && obs.toClient.Len() >= len(sdata) {
+							serverDone := make(chan struct{})
+							doneClosed := false
+							cl := &conn{name: "client", rd: &hsink.ChunkReader{Data: cdata, Sizes: []int{0, 1, 3}, Reset: true}, out: obs.toClient, closedCh: make(chan struct{}), eofAfter: serverDone}
+							sv := &conn{name: "server", rd: &hsink.ChunkReader{Data: sdata, Sizes: []int{0, 1, 2}, Reset: true}, out: obs.toServer, closedCh: make(chan struct{}), blockAtEnd: true}
+							cl.onWrite = func() {
+								if !doneClosed && obs.toClient.Len() >= len(sdata) {
+									doneClosed = true
+									mcrt.Close(serverDone)
+								}
+							}
+							if len(sdata) == 0 {
 								doneClosed = true
 								mcrt.Close(serverDone)
 							}
-						}
-						if len(sdata) == 0 {
-							doneClosed = true
-							mcrt.Close(serverDone)
-						}
-						mcrt.Go("status", func() {
-							for i := 0; i < nstatus; i++ {
-								mcrt.Yield("status")
-								r := string(reportFeed.Status())
-								obs.reports = append(obs.reports, r)
-								mcrt.Note(uint64(len(r)))
-							}
-						})
-						handleMessages(sv, cl, false, 1)
-						obs.returned = true
-					},
-					Check: func(x *mcrt.X) *mcrt.Failure {
-						obs := x.Data.(*obsT)
-						if fault != "" {
-							return &mcrt.Failure{Kind: "sequential-framing-failed", Detail: fault}
-						}
-						if len(x.Panics) > 0 {
-							p := x.Panics[0]
-							return &mcrt.Failure{Kind: "panic in " + p.Thread + ": " + first(p.Value) + " @" + p.Site, Detail: p.Stack}
-						}
-						if x.End == mcrt.EndHorizon {
-							return &mcrt.Failure{Kind: "relay-spins-for-ever"}
-						}
-						if !bytes.Equal(obs.toServer.Buf, cdata) {
-							return &mcrt.Failure{Kind: "upstream-did-not-receive-exactly-the-client-bytes", Detail: fmt.Sprintf("got %x want %x end=%s blocked=%v", obs.toServer.Buf, cdata, x.End, x.Blocked)}
-						}
-						if !bytes.Equal(obs.toClient.Buf, sdata) {
-							return &mcrt.Failure{Kind: "client-did-not-receive-exactly-the-server-bytes", Detail: fmt.Sprintf("got %x want %x end=%s blocked=%v", obs.toClient.Buf, sdata, x.End, x.Blocked)}
-						}
-						if !obs.returned {
-							return &mcrt.Failure{Kind: "handleMessages-did-not-return end=" + x.End, Detail: fmt.Sprint(x.Blocked)}
-						}
-						for _, b := range x.Blocked {
-							// the framing and queue goroutines live as long as the process
-							if b.Thread != "HandleMessages" && b.Thread != "keepCircularQueueUpdated" {
-								return &mcrt.Failure{Kind: "session-goroutine-left-blocked", Detail: fmt.Sprint(x.Blocked)}
-							}
-						}
-						for _, r := range obs.reports {
-							if n := strings.Count(r, "<") + strings.Count(r, ">"); n != templateAngles {
-								region := "messages"
-								if i := strings.Index(r, "id='messages'>"); i >= 0 && strings.Count(r[:i+len("id='messages'>")], "<")+strings.Count(r[:i+len("id='messages'>")], ">") != templateAnglesBeforeMessages {
-									region = "buffers"
+							mcrt.Go("status", func() {
+								for i := 0; i < nstatus; i++ {
+									mcrt.Yield("status")
+									switch logMode {
+									case "switched-off-then-on":
+										reportFeed.SetLogLevel(0)
+									case "switched-on-then-off":
+										_ = os.Truncate(realLogPath, 0)
+										reportFeed.SetLogLevel(1)
+									}
+									mcrt.Yield("status")
+									r := string(reportFeed.Status())
+									obs.reports = append(obs.reports, r)
+									mcrt.Note(uint64(len(r)))
+									switch logMode {
+									case "switched-off-then-on":
+										mcrt.Yield("status")
+										reportFeed.SetLogLevel(1)
+									case "switched-on-then-off":
+										mcrt.Yield("status")
+										reportFeed.SetLogLevel(0)
+									}
 								}
-								return &mcrt.Failure{Kind: "report-unescaped region=" + region, Detail: fmt.Sprintf("%d angle brackets, template has %d", n, templateAngles)}
+							})
+							handleMessages(sv, cl, false, 1)
+							obs.returned = true
+						},
+						Check: func(x *mcrt.X) *mcrt.Failure {
+							obs := x.Data.(*obsT)
+							if fault != "" {
+								return &mcrt.Failure{Kind: "sequential-framing-failed", Detail: fault}
 							}
-							i := strings.Index(r, "id='messages'>\n")
-							j := strings.LastIndex(r, "\n</div>")
-							if i < 0 || j < i {
-								return &mcrt.Failure{Kind: "report-malformed"}
+							if len(x.Panics) > 0 {
+								p := x.Panics[0]
+								return &mcrt.Failure{Kind: "panic in " + p.Thread + ": " + first(p.Value) + " @" + p.Site, Detail: p.Stack}
 							}
-							got := unescape(r[i+len("id='messages'>\n") : j])
-							ok := false
-							want := "\nMessages\n\n"
-							if got == want {
-								ok = true
+							if x.End == mcrt.EndHorizon {
+								return &mcrt.Failure{Kind: "relay-spins-for-ever"}
 							}
-							for _, d := range displays {
-								want += d
+							if !bytes.Equal(obs.toServer.Buf, cdata) {
+								return &mcrt.Failure{Kind: "upstream-did-not-receive-exactly-the-client-bytes", Detail: fmt.Sprintf("got %x want %x end=%s blocked=%v", obs.toServer.Buf, cdata, x.End, x.Blocked)}
+							}
+							if !bytes.Equal(obs.toClient.Buf, sdata) {
+								return &mcrt.Failure{Kind: "client-did-not-receive-exactly-the-server-bytes", Detail: fmt.Sprintf("got %x want %x end=%s blocked=%v", obs.toClient.Buf, sdata, x.End, x.Blocked)}
+							}
+							if !obs.returned {
+								return &mcrt.Failure{Kind: "handleMessages-did-not-return end=" + x.End, Detail: fmt.Sprint(x.Blocked)}
+							}
+							for _, b := range x.Blocked {
+								// the framing and queue goroutines live as long as the process
+								if b.Thread != "HandleMessages" && b.Thread != "keepCircularQueueUpdated" {
+									return &mcrt.Failure{Kind: "session-goroutine-left-blocked", Detail: fmt.Sprint(x.Blocked)}
+								}
+							}
+							for _, r := range obs.reports {
+								if n := strings.Count(r, "<") + strings.Count(r, ">"); n != templateAngles {
+									region := "messages"
+									if i := strings.Index(r, "id='messages'>"); i >= 0 && strings.Count(r[:i+len("id='messages'>")], "<")+strings.Count(r[:i+len("id='messages'>")], ">") != templateAnglesBeforeMessages {
+										region = "buffers"
+									}
+									return &mcrt.Failure{Kind: "report-unescaped region=" + region, Detail: fmt.Sprintf("%d angle brackets, template has %d", n, templateAngles)}
+								}
+								i := strings.Index(r, "id='messages'>\n")
+								j := strings.LastIndex(r, "\n</div>")
+								if i < 0 || j < i {
+									return &mcrt.Failure{Kind: "report-malformed"}
+								}
+								got := unescape(r[i+len("id='messages'>\n") : j])
+								ok := false
+								want := "\nMessages\n\n"
 								if got == want {
 									ok = true
 								}
+								for _, d := range displays {
+									want += d
+									if got == want {
+										ok = true
+									}
+								}
+								if !ok {
+									return &mcrt.Failure{Kind: "report-lists-something-other-than-relayed-messages", Detail: fmt.Sprintf("%q", got)}
+								}
 							}
-							if !ok {
-								return &mcrt.Failure{Kind: "report-lists-something-other-than-relayed-messages", Detail: fmt.Sprintf("%q", got)}
-							}
-						}
-						harness.Outcome(fmt.Sprintf("relayed c=%d s=%d reports=%d", len(cdata), len(sdata), len(obs.reports)))
-						return nil
-					},
-				})
+							harness.Outcome(fmt.Sprintf("relayed c=%d s=%d reports=%d", len(cdata), len(sdata), len(obs.reports)))
+							return nil
+						},
+					})
+				}
 			}
 		}
 	}
